@@ -59,8 +59,8 @@ pub fn apply(lib: Library) -> Result<Library, Vec<Diagnostic>> {
     // Split based on the type so that we put all of the data type declarations
     // at the beginning.
     let mut postfix_types = Vec::new();
-    let mut types_by_name: HashMap<Id, DataTypeDeclarationKind> = HashMap::new();
-    let mut elems_by_name: HashMap<Id, LibraryElementKind> = HashMap::new();
+    let mut types_by_name: UniqueDeclarations<DataTypeDeclarationKind> = UniqueDeclarations::new();
+    let mut elems_by_name: UniqueDeclarations<LibraryElementKind> = UniqueDeclarations::new();
     for element in lib.elements {
         match element {
             LibraryElementKind::DataTypeDeclaration(decl) => {
@@ -142,6 +142,15 @@ pub fn apply(lib: Library) -> Result<Library, Vec<Diagnostic>> {
         }
     }
 
+    // Two declarations with the same name must not silently collapse into one
+    let mut duplicates = types_by_name.duplicates;
+    duplicates.append(&mut elems_by_name.duplicates);
+    if !duplicates.is_empty() {
+        return Err(duplicates);
+    }
+    let mut types_by_name = types_by_name.items;
+    let mut elems_by_name = elems_by_name.items;
+
     // Merge things back together
     let mut elements = Vec::new();
     elements.extend(sorted_ids.iter().filter_map(|id| {
@@ -153,6 +162,34 @@ pub fn apply(lib: Library) -> Result<Library, Vec<Diagnostic>> {
     elements.extend(sorted_ids.iter().filter_map(|id| elems_by_name.remove(id)));
 
     Ok(Library { elements })
+}
+
+/// Declarations keyed by name that remembers when a name is declared more than once.
+struct UniqueDeclarations<T> {
+    items: HashMap<Id, T>,
+    duplicates: Vec<Diagnostic>,
+}
+impl<T> UniqueDeclarations<T> {
+    fn new() -> Self {
+        Self {
+            items: HashMap::new(),
+            duplicates: Vec::new(),
+        }
+    }
+
+    fn insert(&mut self, name: Id, item: T) {
+        if let Some((first, _)) = self.items.get_key_value(&name) {
+            self.duplicates.push(
+                Diagnostic::problem(
+                    Problem::DeclarationNameDuplicated,
+                    Label::span(name.span.clone(), "Duplicate declaration"),
+                )
+                .with_secondary(Label::span(first.span.clone(), "First declaration")),
+            );
+            return;
+        }
+        self.items.insert(name, item);
+    }
 }
 
 struct DeclarationsGraph {
